@@ -218,6 +218,8 @@ pub struct ListenerState {
     waker: Option<Waker>,
     pub closed: bool,
     pub accepted: u64,
+    /// (connection id, sequence number) of every connection handed out by accept()
+    pub accepted_conns: Vec<(usize, u64)>,
 }
 
 pub type SharedListener = Arc<Mutex<ListenerState>>;
@@ -228,7 +230,7 @@ pub struct SimListenerImpl {
 }
 
 pub fn listener(port: u16) -> (SimListenerImpl, SharedListener) {
-    let st = Arc::new(Mutex::new(ListenerState { backlog: VecDeque::new(), waker: None, closed: false, accepted: 0 }));
+    let st = Arc::new(Mutex::new(ListenerState { backlog: VecDeque::new(), waker: None, closed: false, accepted: 0, accepted_conns: Vec::new() }));
     (SimListenerImpl { st: st.clone(), addr: SocketAddr::from(([10, 0, 0, 1], port)) }, st)
 }
 
@@ -254,7 +256,8 @@ impl pavex::server::sim::SimListener for SimListenerImpl {
             Some((s, a)) => {
                 g.accepted += 1;
                 drop(g);
-                crate::slog!("listener accept() returns conn{} peer={}", s.conn, a);
+                let q = crate::slog!("listener accept() returns conn{} peer={}", s.conn, a);
+                self.st.lock().unwrap().accepted_conns.push((s.conn, q));
                 Poll::Ready(Ok((Box::new(s), a)))
             }
             None => {
